@@ -5,12 +5,12 @@ go 1.26
 require (
 	github.com/Comcast/rulio v0.0.0
 	github.com/anishathalye/porcupine v1.3.0
+	github.com/boltdb/bolt v1.3.1
 	github.com/gorhill/cronexpr v0.0.0-20180427100037-88b0669f7d75
 )
 
 require (
 	github.com/Comcast/sheens v2.0.0+incompatible // indirect
-	github.com/boltdb/bolt v1.3.1 // indirect
 	github.com/hashicorp/golang-lru v0.5.4 // indirect
 	github.com/robertkrimen/otto v0.0.0-20191219234010-c382bd3c16ff // indirect
 	gopkg.in/sourcemap.v1 v1.0.5 // indirect
